@@ -14,6 +14,9 @@ import GM.Proof.E2EValue
 import GM.Proof.E2EUrlTok
 import GM.Proof.E2EInlineDone
 import GM.Proof.E2EStoreDone
+import GM.Proof.E2ERunEq
+import GM.Proof.E2EBracket
+import GM.Proof.E2ERel
 
 namespace GM.Props.ConvertE2E
 open GM GM.Text GM.Convert GM.Spec GM.E2E
@@ -304,6 +307,76 @@ theorem convert_unsafe_only_changes_raw (uc : List (Nat × (Bool × Bool))) (o :
       html' = ps.flatMap (emit o.xhtml o.hardWraps true) ∧
       ∀ p ∈ ps, p.unsafeSensitive = false → emit o.xhtml o.hardWraps true p = emit o.xhtml o.hardWraps false p :=
   unsafe_only_changes_raw uc o src html html' h h'
+
+/-! ### round 3: the driver without transformers, and the link-reference transformer on sources without `[`
+
+(The theorems that need package `wf0` — end-to-end totality of the pipeline without paragraph transformers — are in
+GM.Props.ConvertE2ENT, so that this file does not depend on it.) -/
+
+/-- `driver_with_no_transformers_is_plain_driver`: `runT [] = run`, for EVERY source — the block driver WITH paragraph
+    transformers (GM.Model.Blocks.DriverT, what `convertCore` runs) instantiated with the empty list IS the driver of
+    GM.Model.Blocks.Driver (what GM.Props.Blocks / C01 / C05 / C08 / C09 / wf0 speak about), as final states and as error
+    outcomes. Mechanised function by function (`tryParsersT`, the retry loop, the two line loops); the two differ by the dead
+    `retryTransformed` branch and the `tdone` flag only. So every `run` theorem is a theorem about `runT []`. -/
+theorem driver_with_no_transformers_is_plain_driver (src : Bytes) : GM.Blocks.runT [] src = GM.Blocks.run src :=
+  GM.Blocks.runT_nil src
+
+/-- `link_reference_scan_finds_nothing_without_bracket`: on a source without the byte `[` the first loop of
+    `linkReferenceParagraphTransformer.Transform` (link_ref.go:20-31), run on ANY list of line segments and any reference
+    map, removes nothing and registers nothing — whenever it answers at all. (Every line the block reader hands out
+    consists of source bytes, padding spaces and a newline, so `line[pos] != '['`, link_ref.go:73.) -/
+theorem link_reference_scan_finds_nothing_without_bracket (src : Bytes) (hb : NoBracket src) (lines : List Segment)
+    (refs refs' : GM.LinkRef.RefMap) (rm : List (Int × Int))
+    (h : GM.LinkRef.transformScan src lines refs = .ok (rm, refs')) : rm = [] ∧ refs' = refs :=
+  transformScan_noBracket hb h
+
+/-- `link_reference_transformer_silent_without_bracket`: from EVERY block-phase state over a source without `[`, on a
+    node that HAS at least one line, the paragraph transformer of `blockPhase guard` returns the state UNCHANGED (reader,
+    node store, reference map, open blocks) or ends in an error outcome. -/
+theorem link_reference_transformer_silent_without_bracket (guard : Bool) (node : Nat) (s : GM.Blocks.St)
+    (hb : NoBracket s.r.source) (hl : (s.nodes.getD node default).lines ≠ []) :
+    ∀ pt ∈ paragraphTransformers guard, pt node s = .ok ((), s) ∨ ∃ e, pt node s = .error e :=
+  paragraphTransformer_silent guard node s hb hl
+
+/-- `link_reference_transformer_not_silent_on_lineless_paragraph` (the NEGATION of "the transformer declines on every
+    state over a source without `[`", on a witness; reproduced on /repo by calling `Transform` on an attached
+    `ast.NewParagraph()` without lines: the Document's child becomes a TextBlock). On `witnessSt` — empty source, a
+    Document whose only child is a Paragraph WITHOUT lines — the guarded transformer succeeds and changes the tree: a
+    fresh TextBlock takes the paragraph's place (link_ref.go:41-47), the paragraph is detached. Hence carrying `run`
+    theorems over to `blockPhase` on such sources needs the driver invariant "a Paragraph handed to
+    `transformParagraph` (parser.go:904-907, 985-997) has a line", not only the byte condition. -/
+theorem link_reference_transformer_not_silent_on_lineless_paragraph :
+    NoBracket witnessSt.r.source ∧
+    ∃ s', GM.LinkRef.guardedTransform 1 witnessSt = .ok ((), s') ∧ s'.nodes.length = 3 ∧
+      (s'.nodes.getD 0 default).children = [2] ∧ (s'.nodes.getD 2 default).kind = .textBlock ∧
+      (s'.nodes.getD 1 default).parent = none ∧ s' ≠ witnessSt :=
+  transform_not_silent_witness
+
+/-- **`block_phase_bracket_free`** — for EVERY source without the byte `[` and both settings of the run-time check: the block phase
+    of the default pipeline (driver WITH the link-reference transformer) answers exactly what the block phase WITHOUT paragraph
+    transformers answers — the same final state (reader, node store, parse context, reference map) — or it ends in an error.
+    (With `block_phase_total` of package tnopanic, which excludes the error, this is the equality
+    `blockPhase true src = GM.Blocks.run src`.) Proof (GM.Proof.E2ERel): the two drivers are run side by side; the invariants
+    that make the transformer silent at its two call sites are carried along — the source is fixed, every Paragraph has a line
+    (`PNE`), the open-block stack is consistent (`J2`, so `RequireParagraph` closes the paragraph with `paragraphParser.Close`,
+    which keeps a paragraph that has a line attached: `transformed` is false on both sides). -/
+theorem block_phase_bracket_free (guard : Bool) (src : Bytes) (hb : NoBracket src) :
+    blockPhase guard src = GM.Blocks.run src ∨ ∃ e, blockPhase guard src = .error e :=
+  blockPhase_noBracket guard src hb
+
+/-- **`open_block_stack_consistent_and_paragraphs_have_lines`** — for EVERY source: in the store the block phase WITHOUT
+    transformers returns, every block of the open-block stack has a node of the kind its parser builds (`J2`) and every
+    Paragraph node has at least one line (`PNE`). (Invariants that are not blind to the parse context / the lines: a fourth
+    walk, GM.Proof.E2EPara.) -/
+theorem open_block_stack_consistent_and_paragraphs_have_lines (src : Bytes) (st : GM.Blocks.St)
+    (h : GM.Blocks.runT [] src = .ok st) :
+    (∀ i, (st.nodes.getD i default).kind = .paragraph → (st.nodes.getD i default).lines ≠ []) ∧
+    (∀ b ∈ st.pc.opened, b.node < st.nodes.length ∧ (st.nodes.getD b.node default).kind = GM.ConvertH.BP.kindOf b.bp) :=
+  GM.E2E.PJ.runT_pj (fun _ _ _ hq => by cases hq) src st h
+
+/-- `NoBracket` is decidable and not constantly true (tests on literals) -/
+example : NoBracket (strBytes "# a\n> b\n") := by decide +kernel
+example : ¬ NoBracket (strBytes "[a]: /u\n") := by decide +kernel
 
 /-! ### non-vacuity (tests on literals, evaluated by the kernel) -/
 
